@@ -707,6 +707,165 @@ let run_e2e_ranges get_in get =
         end)
     ["G"; "S"; "A"]
 
+(* ---------------- the padding clause on sampled / striped / hand-filled sequences (`k=pad`) ----------------
+   Sequence built by StripedSequence::sample (StdRng seed), by to_striped of text, or by StripedSequence::new on
+   a hand-filled matrix; configured; scored by Pipeline::generic()/sse2()/avx2() (pg / ps / pa: max / argmax /
+   threshold of the same pipeline, coordinates) and by ScoringMatrix::score under each forced arm (dG / dS / dA:
+   StripedScores::{max,argmax,threshold}, offsets).  Judged, per scoring:
+   * first sentence of C07 on the observed cells (check_entry / check_striped: extracted check_C07 + the kernel
+     models), agreement of the maximum with pg;
+   * the padding clause (second sentence) -- every cell of linear index >= max_index is -inf, the maximum is the
+     best valid score and the arg-maximum / threshold positions are < max_index when a valid score is finite
+     (threshold: unless t = -inf) -- by the extracted check_padding / check_padding_max, for src=sample and
+     src=text ALWAYS, for src=new only when the clause's premise holds (every cell of the sequence matrix of
+     linear index >= L holds the wildcard): a hand-filled matrix with other padding symbols is scored like a
+     longer sequence, the clause is not promised there;
+   * DIFF: cells against the defined scores of (sequence ++ padding symbols) (property C01), R / max_index. *)
+let run_pad get_in get =
+  let e = f32_elt in
+  let pssm = List.map (List.map e.of_int) (parse_int_matrix (get_in "pssm")) in
+  let src = get_in "src" in
+  let l = int_of_string (get_in "L") in
+  let t = f32_of_string (get_in "t") in
+  let mlen = List.length pssm in
+  let cols = 32 in
+  match get "sR" with
+  | None -> diff "sR missing"
+  | Some "P" -> propfail "building the sequence panicked (src=%s)" src
+  | Some sr ->
+  let r0 = int_of_string sr in
+  let dash s = if s = "-" then "" else s in
+  let q = dash (match get "q" with Some x -> x | None -> "-") in
+  let pd = dash (match get "pd" with Some x -> x | None -> "-") in
+  if String.length q <> l then diff "q has %d symbols, L = %d" (String.length q) l;
+  (match get "sL" with Some x when int_of_string x = l -> () | _ -> diff "len() differs from L");
+  if String.length pd <> max 0 (r0 * cols - l) then diff "pd has %d symbols, expected %d" (String.length pd) (r0 * cols - l);
+  (match src with
+   | "sample" -> if r0 <> (l + cols - 1) / cols then diff "sample: %d rows for %d symbols" r0 l
+   | "text" ->
+       let s = dash (get_in "seq") in
+       if r0 <> (l + cols - 1) / cols then diff "to_striped: %d rows for %d symbols" r0 l;
+       if s <> q then diff "to_striped: Index<usize> does not read the text back"
+   | _ -> ());
+  let premise = (let ok = ref true in String.iter (fun c -> if c <> 'N' then ok := false) pd; !ok) in
+  (* sample / to_striped promise wildcard padding (C04); the clause is judged for them in any case *)
+  if src <> "new" && not premise then
+    diff "src=%s: a cell of the sequence matrix past the end does not hold the wildcard (pd=%s)" src pd;
+  let judge_padding = src <> "new" || premise in
+  let syms str = List.init (String.length str) (fun i -> nat_of_int (sym_of_char str.[i])) in
+  let seq = syms q in
+  let seq_full = syms (q ^ pd) in
+  let exp_rows = if l < mlen || l = 0 then 0 else r0 in
+  let valid = if exp_rows = 0 then 0 else l + 1 - mlen in
+  let n = exp_rows * cols in
+  let wild_ok = List.for_all (fun row -> List.length row = 5 && f32_is_ninf (List.nth row 4)) pssm in
+  if not wild_ok then diff "pad case outside the hypotheses: wildcard column is not -inf";
+  let defined = Array.init n (fun i -> f32_score_def pssm seq_full (nat_of_int i)) in
+  let hyp_ok = ref wild_ok in
+  if judge_padding then
+    for i = 0 to n - 1 do
+      if not (f32_terms_ok pssm seq (nat_of_int i)) then begin
+        hyp_ok := false; diff "pad case outside the hypotheses: a partial sum is NaN or +inf at %d" i end
+    done;
+  (* model side: under the premise the defined scores past the last valid position are -inf (C07_padding_score_neg_inf) *)
+  if judge_padding && !hyp_ok then
+    for i = valid to n - 1 do
+      if not (f32_is_ninf (f32_score_def pssm seq (nat_of_int i))) then
+        diff "defined score at padding position %d is not -inf (theorem hypotheses violated?)" i
+    done;
+  let t_is_ninf = f32_is_ninf t in
+  let gmax = ref Missing in
+  let cn = nat_of_int cols in
+  List.iter (fun an ->
+    match get (an ^ ".R") with
+    | None -> diff "%s.R missing" an
+    | Some "P" -> propfail "%s: scoring panicked" an
+    | Some r ->
+        let rows = int_of_string r in
+        if rows <> exp_rows then diff "%s.R=%d expected %d" an rows exp_rows
+        else begin
+          let mi = match get (an ^ ".mi") with Some x -> int_of_string x | None -> -1 in
+          if mi <> valid then diff "%s.max_index=%d differs from L-M+1=%d" an mi valid;
+          let m = List.map (List.map e.of_int) (parse_int_matrix (match get (an ^ ".c") with Some x -> x | None -> "-")) in
+          if List.length m <> rows then diff "%s.c has a wrong number of rows" an
+          else begin
+            let cell i = match f32_index_usize m (nat_of_int i) with Ok x -> Some x | _ -> None in
+            for i = 0 to n - 1 do
+              match cell i with
+              | Some x -> if f32_bits x <> f32_bits defined.(i) then diff "%s: cell %d differs from the defined score" an i
+              | None -> diff "%s: cell %d unreadable" an i
+            done;
+            let domain = List.for_all (List.for_all e.in_domain) m && e.in_domain t in
+            let min_ = n_of_int (max mi 0) in
+            (* ---- first sentence: the answers against the observed cells ---- *)
+            let striped_level = an.[0] = 'd' in
+            let omax = obs_opt e.parse (get (an ^ ".max")) in
+            let am_off : int option ans =
+              if striped_level then obs_opt int_of_string (get (an ^ ".am"))
+              else (match obs_opt parse_coord (get (an ^ ".am")) with
+                    | Ans (Some (r, c)) -> Ans (Some (c * rows + r))
+                    | Ans None -> Ans None | Panicked -> Panicked | Missing -> Missing) in
+            let th_off : int list ans =
+              if striped_level then obs_list int_of_string (get (an ^ ".th"))
+              else (match obs_list parse_coord (get (an ^ ".th")) with
+                    | Ans l -> Ans (List.map (fun (r, c) -> c * rows + r) l)
+                    | Panicked -> Panicked | Missing -> Missing) in
+            if striped_level then begin
+              let a = arm_of (String.sub an 1 1) in
+              let am = lazy (f32_dispatch_argmax a min_ m) in
+              check_striped e m t domain get an rows cols
+                (lazy (of_res (fun x -> x) (f32_dispatch_max a m)))
+                (lazy (of_res conv_n_opt (f32_ss_argmax (Lazy.force am) m)))
+                (lazy (List.map int_of_n (f32_ss_threshold m t)))
+                (fun off -> of_res (fun x -> x) (f32_index_usize m (nat_of_int off)));
+              (match !gmax, omax with
+               | Ans (Some a), Ans (Some b) when domain && not (e.value_eq a b) -> propfail "%s.max disagrees with pg.max" an
+               | _ -> ())
+            end else begin
+              let th_model = lazy (List.map coord_of_nat (f32_threshold m t)) in
+              let (mx, am) = match an with
+                | "pg" -> (lazy (of_res (fun x -> x) (f32_max_generic m)), lazy (of_res conv_coord_opt (f32_argmax_generic m)))
+                | "ps" -> (lazy (of_res (fun x -> x) (f32_max_sse2 cn min_ m)), lazy (of_res conv_coord_opt (f32_argmax_sse2 cn min_ m)))
+                | _ -> (lazy (of_res (fun x -> x) (f32_max_avx2 m)), lazy (of_res conv_coord_opt (f32_argmax_avx2 min_ m))) in
+              check_entry e m t domain get an mx am th_model gmax;
+              if an = "pg" then gmax := omax
+            end;
+            (* ---- second sentence: the padding clause ---- *)
+            if judge_padding && !hyp_ok && domain then begin
+              if not (f32_check_padding m (nat_of_int valid) (nat_of_int n)) then begin
+                let bad = List.filter (fun i -> match cell i with Some x -> not (f32_is_ninf x) | None -> true)
+                            (List.init (n - valid) (fun k -> valid + k)) in
+                propfail "%s: src=%s: a cell past the last valid position is not -inf (cell %d of %d, max_index %d)"
+                  an src (match bad with i :: _ -> i | [] -> -1) n valid
+              end;
+              let valid_cells = List.filter_map cell (List.init valid (fun i -> i)) in
+              let some_finite = List.exists f32_is_finite valid_cells in
+              (match omax with
+               | Ans o when some_finite && not (f32_check_max [valid_cells] o) ->
+                   propfail "%s: src=%s: max is not the best valid position's score" an src
+               | _ -> ());
+              (match am_off with
+               | Ans (Some off) when some_finite && off >= valid ->
+                   propfail "%s: src=%s: argmax=%d designates a position past the end (max_index %d) although a valid score is finite" an src off valid
+               | _ -> ());
+              (match th_off with
+               | Ans lst when not t_is_ninf && List.exists (fun off -> off >= valid) lst ->
+                   propfail "%s: src=%s: threshold reports position %d past the end (max_index %d) for t > -inf" an src
+                     (List.find (fun off -> off >= valid) lst) valid
+               | _ -> ());
+              (* the whole clause through the checker proved sound in C07.v (check_padding_max_sound) *)
+              (match omax, am_off with
+               | Ans o, Ans a ->
+                   let oa = match a with Some off when off >= 0 -> Some (nat_of_int off) | _ -> None in
+                   if (a = None || oa <> None)
+                      && not (f32_check_padding_max m (nat_of_int valid) (nat_of_int n) o oa) then
+                     propfail "%s: src=%s: check_padding_max rejects (cells, max, argmax)" an src
+               | _ -> ())
+            end
+          end
+        end)
+    ["pg"; "ps"; "pa"; "dG"; "dS"; "dA"]
+
 (* The extracted list functions are not tail recursive and a 3000-row matrix has ~10^5 cells:
    re-execute once under a larger stack limit (soft limit raised to 1 GB when the hard limit
    allows it; otherwise the default stays and very large cases may still overflow). *)
@@ -754,6 +913,7 @@ let () =
            | "b16" -> run_u8 get_in get 16
            | "b48" -> run_u8 get_in get 48
            | "b64" -> run_u8 get_in get 64
+           | "pad" -> run_pad get_in get
            | "e2e" -> if (try ignore (get_in "rr"); true with Not_found -> false) then run_e2e_ranges get_in get else run_e2e get_in get
            | k -> diff "unknown kind %s" k
          with ex -> diff "driver exception %s" (Printexc.to_string ex));
